@@ -31,6 +31,7 @@ type Mode struct {
 	Reads       bool  // read endpoints in the mix
 	Submits     bool  // submissions in the mix
 	Boundary    bool  // C07: boundary-biased get-entries over the whole int64 range
+	Foreign     bool  // C07: the tree may already hold leaves no front end of this version wrote (undecodable, trailing bytes, no extra data)
 	External    bool  // C14: second instance with external chain storage
 	LostReply   bool  // C01: the reply to an applied QueueLeaf may be lost (crash between backend and response)
 	ReadWeights []int // sth, consistency, proof-by-hash, entries, entry-and-proof, roots
@@ -225,7 +226,44 @@ func (w *World) build() {
 		}
 		w.legacy = &replica{inst: inst}
 	}
+	if w.mode.Foreign && t.Chance(1, 3) {
+		w.storeForeignLeaves(epoch)
+	}
 	s.Logf("profile %+v pki roots=%d", *p, len(w.pki.Roots))
+}
+
+// storeForeignLeaves puts 1-3 entries into the tree before the run that were not
+// written through this front end: "all stored entries" of C07 includes leaves
+// whose bytes do not decode, carry trailing bytes, or have no extra data. The
+// front end must serve them unmodified like any other.
+func (w *World) storeForeignLeaves(epoch time.Time) {
+	t := w.s.T
+	n := t.Range(1, 3)
+	for i := 0; i < n; i++ {
+		var value, extra []byte
+		kind := t.Intn(4)
+		filler := func(n int, salt string) []byte {
+			b := make([]byte, n)
+			for j := range b {
+				b[j] = byte(kernel.HashChoice(w.s.Seed, fmt.Sprintf("foreign|%s|%d|%d", salt, i, j), 256))
+			}
+			return b
+		}
+		switch kind {
+		case 0: // arbitrary bytes
+			value, extra = filler(t.Range(1, 40), "v"), filler(t.Range(0, 20), "x")
+		case 1: // a well-formed leaf followed by a stray byte
+			value = append(oracle.MerkleTreeLeaf(uint64(epoch.UnixMilli())-uint64(i)-1, oracle.Entry{Type: 0, Cert: filler(30, "c")}, nil), 0x5a)
+			extra = []byte{0, 0, 0}
+		case 2: // a well-formed leaf without extra data
+			value = oracle.MerkleTreeLeaf(uint64(epoch.UnixMilli())-uint64(i)-1, oracle.Entry{Type: 0, Cert: filler(30, "c")}, nil)
+		default: // an unknown leaf version / type
+			value, extra = append([]byte{1, 7}, filler(12, "u")...), filler(5, "x")
+		}
+		w.be.Log.Queue(value, extra, sha(value), epoch.UnixNano())
+		w.s.Probe(fmt.Sprintf("c07.foreign-leaf.%d", kind))
+	}
+	w.be.Log.Sequence(n, epoch.UnixNano(), false)
 }
 
 // ---- operation generation ----
